@@ -44,6 +44,7 @@ fn main() {
         "config" => suites::config::main(seed, first, runs, &out, kv.get("sched")),
         "registry" => suites::registry::main(seed, first, runs, &out, kv.get("sched")),
         "dist" => suites::dist::main(seed, first, runs, ops, &out, kv.get("sched"), kv.get("table").and_then(|t| t.parse().ok())),
+        "pipeline" => suites::pipeline::main(seed, first, runs, &out, kv.get("sched")),
         "math" => suites::math::main(seed, first, runs, ops, &out, kv.get("kind").map(|s| s.as_str()).unwrap_or("all")),
         _ => {
             eprintln!("unknown suite {suite}");
